@@ -12,6 +12,7 @@ import (
 	"github.com/gebn/bmc/pkg/ipmi"
 	"github.com/google/gopacket"
 
+	"verif/env"
 	"verif/ref"
 	"verif/rep"
 )
@@ -214,10 +215,27 @@ func c06One(ws *c06Worlds, c c06Case) (string, string) {
 	if c.Cmd == "OpenSessionReq" || c.Cmd == "RAKPMessage1" || c.Cmd == "RAKPMessage3" {
 		return c06Setup(c)
 	}
-	for _, mode := range []string{"sessionless", "insession"} {
+	if c.Cmd == "HandshakeAfterHistory" {
+		return c06Handshake(c)
+	}
+	for _, mode := range []string{"sessionless", "insession", "insession-retried"} {
 		w, conn := ws.less, bmc.Connection(ws.less.Conn)
-		if mode == "insession" {
+		if mode != "sessionless" {
 			w, conn = ws.in, ws.sess
+		}
+		wantTx := 1
+		w.T.Menu = nil
+		if mode == "insession-retried" {
+			// the first attempt is answered "node busy": the retransmission is a request too
+			wantTx = 2
+			first := true
+			w.T.Menu = func(t *env.Transport, req []byte) []env.Answer {
+				if first {
+					first = false
+					return []env.Answer{env.Code("node-busy", 0xC0)}
+				}
+				return []env.Answer{env.Honest()}
+			}
 		}
 		cmd, netfn, cmdno, lun, data, wantErr := c06Build(c)
 		if cmd == nil {
@@ -237,19 +255,22 @@ func c06One(ws *c06Worlds, c c06Case) (string, string) {
 			}
 			continue
 		}
-		if len(sent) != 1 {
-			return "C06/" + c.Cmd + "/transmissions", fmt.Sprintf("%s %v (%s): %d datagrams for one command with an honest BMC (err %v)", c.Cmd, c.V, mode, len(sent), err)
+		w.T.Menu = nil
+		if len(sent) != wantTx {
+			return "C06/" + c.Cmd + "/transmissions", fmt.Sprintf("%s %v (%s): %d datagrams, want %d (err %v)", c.Cmd, c.V, mode, len(sent), wantTx, err)
 		}
-		rx := sent[0].Rx
-		if len(rx.Problems) > 0 {
-			return "C06/" + c.Cmd + "/malformed/" + problemClass(rx.Problems[0]), fmt.Sprintf("%s %v (%s): %s", c.Cmd, c.V, mode, strings.Join(rx.Problems, "; "))
-		}
-		m := rx.Msg
-		if m == nil {
-			return "C06/" + c.Cmd + "/no-message", fmt.Sprintf("%s %v (%s): no IPMI message in % x", c.Cmd, c.V, mode, sent[0].Req)
-		}
-		if m.NetFn != netfn || m.Cmd != cmdno || m.LUN1 != lun || !bytes.Equal(m.Data, data) || m.Addr1 != 0x20 || m.Addr2 != 0x81 {
-			return "C06/" + c.Cmd + "/encoding", fmt.Sprintf("%s fields %v (%s): BMC received NetFn %#02x cmd %#02x LUN %d data % x rs %#02x rq %#02x; the specification's encoding is NetFn %#02x cmd %#02x LUN %d data % x rs 20 rq 81", c.Cmd, c.V, mode, m.NetFn, m.Cmd, m.LUN1, m.Data, m.Addr1, m.Addr2, netfn, cmdno, lun, data)
+		for _, ex := range sent {
+			rx := ex.Rx
+			if len(rx.Problems) > 0 {
+				return "C06/" + c.Cmd + "/malformed/" + problemClass(rx.Problems[0]), fmt.Sprintf("%s %v (%s): %s", c.Cmd, c.V, mode, strings.Join(rx.Problems, "; "))
+			}
+			m := rx.Msg
+			if m == nil {
+				return "C06/" + c.Cmd + "/no-message", fmt.Sprintf("%s %v (%s): no IPMI message in % x", c.Cmd, c.V, mode, ex.Req)
+			}
+			if m.NetFn != netfn || m.Cmd != cmdno || m.LUN1 != lun || !bytes.Equal(m.Data, data) || m.Addr1 != 0x20 || m.Addr2 != 0x81 {
+				return "C06/" + c.Cmd + "/encoding", fmt.Sprintf("%s fields %v (%s): BMC received NetFn %#02x cmd %#02x LUN %d data % x rs %#02x rq %#02x; the specification's encoding is NetFn %#02x cmd %#02x LUN %d data % x rs 20 rq 81", c.Cmd, c.V, mode, m.NetFn, m.Cmd, m.LUN1, m.Data, m.Addr1, m.Addr2, netfn, cmdno, lun, data)
+			}
 		}
 		// keep memory bounded
 		ws.n++
@@ -342,6 +363,14 @@ func runC06(r *rep.R) {
 	for _, c := range []string{"GetDeviceID", "GetChassisStatus", "GetSystemGUID", "GetSDRRepositoryInfo", "ReserveSDRRepository"} {
 		do(c)
 	}
+	// setup payloads on the wire after the connection's buffer has been used
+	for hist := int64(0); hist < 4; hist++ {
+		for ul := int64(0); ul <= 16; ul++ {
+			for lk := int64(0); lk < 2; lk++ {
+				do("HandshakeAfterHistory", hist, ul, lk, (ul+lk)%6)
+			}
+		}
+	}
 	// RMCP+ setup payloads
 	for tag := int64(0); tag < 256; tag++ {
 		do("OpenSessionReq", tag, tag%16, 1, 1, 1, 1)
@@ -374,4 +403,42 @@ func runC06(r *rep.R) {
 	}
 	r.Assume("field values are restricted to what the wire field can hold (e.g. channel 0..15); out-of-domain caller values are the caller's error and not judged")
 	r.Assume("16/32-bit identifiers range over boundary alphabets")
+}
+
+// c06Handshake: the RMCP+ setup payloads as they reach the wire through
+// NewV2Session when the connection's buffer has already carried other
+// packets. v = [history kind, user-name length, lookup, privilege].
+func c06Handshake(c c06Case) (string, string) {
+	v := c.V
+	cfg := histConfig(ref.Suite{Auth: 1, Integ: 1, Conf: 1})
+	w := newWorld(cfg, nil, nil)
+	open := func(user string, lookup bool, priv ipmi.PrivilegeLevel) (*bmc.V2Session, error) {
+		return w.Conn.NewV2Session(w.Ctx, &bmc.V2SessionOpts{SessionOpts: bmc.SessionOpts{Username: user, Password: cfg.Password, MaxPrivilegeLevel: priv}, PrivilegeLevelLookup: lookup, CipherSuites: []ipmi.CipherSuite{ipmi.CipherSuite3}})
+	}
+	switch v[0] {
+	case 1:
+		w.Conn.GetSystemGUID(w.Ctx)
+	case 2, 3:
+		s, err := open("first", false, ipmi.PrivilegeLevelAdministrator)
+		if err != nil {
+			return "C06/HandshakeAfterHistory/harness", err.Error()
+		}
+		s.GetDeviceID(w.Ctx)
+		if v[0] == 3 {
+			s.SendCommand(w.Ctx, &rawCmd{op: ipmi.Operation{Function: 0x30, Command: 0x42}, body: pattern(200, 0xFF, 0)})
+		}
+		s.Close(w.Ctx)
+	}
+	mark := len(w.BMC.Log)
+	s, err := open(string(pattern(int(v[1]), 0x61, 1)), v[2] != 0, ipmi.PrivilegeLevel(v[3]))
+	if err != nil {
+		return "C06/HandshakeAfterHistory/handshake-failed", fmt.Sprintf("history kind %d, user name length %d: %v; BMC saw %v", v[0], v[1], err, problemsOf(w.BMC))
+	}
+	s.Close(w.Ctx)
+	for i, rx := range w.BMC.Log[mark:] {
+		if len(rx.Problems) > 0 {
+			return "C06/HandshakeAfterHistory/malformed/" + rx.Name, fmt.Sprintf("after history kind %d, handshake datagram %d (%s, user name length %d) is malformed: %s; bytes % x", v[0], i, rx.Name, v[1], strings.Join(rx.Problems, "; "), rx.Raw)
+		}
+	}
+	return "", ""
 }
